@@ -133,7 +133,7 @@ _ADD = {
     "C07": " History replay (CFMachine.tla action Grow, action property GrowLocal model-checked): per graph one object without its last edge answers every event, the edge is added in place, every event is asked again and must be answered like an object of the same value and insertion order that has no history.",
     "C08": " History replay as in C07 (CFMachine.tla Grow): an object that was queried, grown in place by one edge and queried again must answer like an object of the same value without that history.",
     "C14": " Walks interleave the in-place mutators add_node / add_directed_edge / add_undirected_edge (actions of GraphOps.tla, action property MutatorsGrow) with the operations on ONE live object, so every later observation must be the one of the current value.",
-    "C15": " The enumeration itself is a machine (CIMachine.tla: StartPair / Probe / GiveUp / Finish over the verdict table; invariants Sound, AtMostOne, Exact, TwoSided, Progress, action property Monotone model-checked on all 3-node and all ordered 4-node ADMGs for both readings of the limit). Further families: BC5 (SepExtra.tla) and the example catalogue (SepFile.tla).",
+    "C15": " The enumeration itself is a machine (CIMachine.tla: StartPair / Probe / GiveUp / Finish over the verdict table; invariants Sound, AtMostOne, Exact, TwoSided, Progress, action property Monotone model-checked on all 3-node and all ordered 4-node ADMGs for both readings of the limit). Trace direction (CITrace.tla): the sequence of judgements the real generator d_separations yields, in order, must be a behaviour of CIMachine (one event per emitted judgement; the silent StartPair / Probe / GiveUp steps and the reading of the limit are inferred by TLC; Sound and AtMostOne are evaluated on every explained prefix). Further families: BC5 (SepExtra.tla) and the example catalogue (SepFile.tla).",
     "C18": " History replay (CFMachine.tla action Grow, action property GrowLocal - modularity of the model family - model-checked): one object answers every event, is grown in place by one edge and answers again; the answers of the object with a history are validated by TLC like any other record and compared with those of an object without history.",
     "C20": " Further family: the repository's example catalogue (SepFile.tla, seven 5-8 node graphs).",
 }
